@@ -110,52 +110,18 @@ def describe(e, variant, build):
     return d
 
 
+def _canary(ep):
+    for j, e in enumerate(ep):
+        if e["ev"] == "apply" and e["res"] == "ok" and e["n"] > 0:
+            can = copy.deepcopy(ep[: j + 1])
+            can[j]["after"][0] ^= 1
+            return can
+    return None
+
+
 def validate_histories(c, trace, build, label, workers=8):
     """TLC-validate a recorded history file against the ideal stream spec; report rejects."""
-    recs = vlib.read_ndjson(trace)
-    eps = vlib.episodes(recs)
-    # canary episodes: copies of recorded prefixes with one output byte of the last (successful) apply corrupted
-    cans = []          # (original start index (0-based), prefix length)
-    full = list(recs)
-    pos0 = 0
-    for ep in eps:
-        if len(cans) >= 3:
-            break
-        for j, e in enumerate(ep):
-            if e["ev"] == "apply" and e["res"] == "ok" and e["n"] > 0:
-                can = copy.deepcopy(ep[: j + 1])
-                can[j]["after"][0] ^= 1
-                cans.append((pos0, j + 1, len(full)))
-                full += can
-                break
-        pos0 += len(ep)
-    vlib.write_ndjson(trace, full)
-    rej, r = vlib.validate_trace("TraceStream", trace, workers=workers, timeout=3000)
-    allidx = sorted(l for l, _ in rej)
-    idx = [l for l in allidx if l <= len(recs)]
-    conclusive = 0
-    for (o, ln, cstart) in cans:
-        if any(o < l <= o + ln for l in idx):
-            continue          # the original prefix itself is rejected: this canary says nothing
-        conclusive += 1
-        if (cstart + ln) not in allidx:
-            raise vlib.ToolError("canary episode was not rejected at its corrupted event: stream trace validation is not binding")
-    c.cov["canaries_conclusive"] = c.cov.get("canaries_conclusive", 0) + conclusive
-    # vacuity guard: every event of every episode must have been consumed up to its first rejection
-    starts = [i for i, e in enumerate(full) if e["k"] == 0] + [len(full)]
-    consumed = 0
-    for a_, b_ in zip(starts, starts[1:]):
-        bad = [l for l in allidx if a_ < l <= b_]
-        consumed += (min(bad) - a_) if bad else (b_ - a_)
-    if r["distinct"] != consumed:
-        raise vlib.ToolError("vacuity guard: TLC consumed %d events, expected %d" % (r["distinct"], consumed))
-    for l in idx:
-        e = full[l - 1]
-        ep_start = max(s for s in starts if s < l)
-        variant = full[ep_start]["variant"]
-        d = describe(e, variant, build)
-        txt = "%s: event %d of episode (%s, %s) rejected by the ideal stream spec: %s" % (label, e["k"], variant, full[ep_start].get("tag"), vlib.shorten({k: v for k, v in e.items() if k != "st"}, 12))
-        c.violation(d, full[ep_start:l], txt)
+    recs, eps, r, _ = vlib.validate_episodes(c, "TraceStream", trace, lambda e, first: describe(e, first["variant"], build), _canary, label, workers=workers)
     return recs, eps, r
 
 
